@@ -4,7 +4,7 @@
 From Coq Require Import List NArith Lia Bool Sorting.Sorted.
 From HB Require Import Peg.Peg Peg.Grammar Tpl.Compile Spec.WfTokens
   Proofs.PegFacts Proofs.PegTermination Proofs.PegForest Proofs.CompileNoPanic Proofs.CompileStages
-  Proofs.CompilePositions Proofs.CompileTermination Proofs.GrammarSchema.
+  Proofs.CompilePositions Proofs.CompileTermination Proofs.GrammarSchema Proofs.RawBlockAdjacent.
 Import ListNotations.
 Open Scope N_scope.
 
@@ -205,6 +205,8 @@ Proof.
       eapply i_hblock; try eassumption; lia.
     - (* raw block *)
       match goal with H : hgen _ (ERef R_raw_block) _ _ _ _ _ |- _ => gen_ref H end.
+      match goal with HR : hb_RP R_raw_block _ _ _ |- _ =>
+        specialize (HR eq_refl eq_refl eq_refl); rename HR into Hadj end.
       repeat eseq.
       match goal with H : hgen _ (ERef R_raw_block_start) _ _ _ _ _ |- _ =>
         fltag H E1;
@@ -214,10 +216,15 @@ Proof.
         destruct (tag_raw_block_end _ _ _ _ H) as (ch9 & -> & Ht9 & L9); clear H end.
       match goal with H : hgen _ (ERef R_raw_block_text) _ _ _ _ _ |- _ =>
         destruct (raw_block_text_shape _ _ _ _ H) as (Et & Lt); clear H end.
-      rewrite !flats_app', !fl_app, E1, E9, Et. tidy. cbn [filter app]. split; [|lia].
+      rewrite !flats_app', !fl_app, E1, E9, Et in Hadj.
+      cbn [app] in Hadj; autorewrite with fl in Hadj; cbn [filter app] in Hadj.
+      assert (p4 = p3) as ->.
+      { apply (Hadj ((R_raw_block_start, p, p1) :: flats ch1) p2 p3 p4 p' (flats ch9)).
+        cbn [app]. rewrite <- ?app_assoc. cbn [app]. reflexivity. }
+      rewrite ?flats_app', ?fl_app, ?E1, ?E9, ?Et. tidy. cbn [filter app]. split; [|lia].
       match goal with |- item _ _ ?L =>
         replace L with (((R_raw_block_start, p, p1) :: flats ch1)
-                        ++ (R_raw_block_text, p2, p3) :: (R_raw_block_end, p4, p') :: flats ch9)
+                        ++ (R_raw_block_text, p2, p3) :: (R_raw_block_end, p3, p') :: flats ch9)
           by (cbn [app]; rewrite <- ?app_assoc; cbn [app]; reflexivity) end.
       eapply i_rawblock; try eassumption; lia.
     - eapply comment_item; try eassumption;
@@ -309,7 +316,7 @@ Proof.
   intros fuel src ts H. rewrite hb_parse_unfold in H. unfold parse in H.
   destruct (eval rule hb_defs hb_ws fuel (ERef R_handlebars) ANon false src 0) as [pos rest ts0| |] eqn:E;
     try discriminate.
-  inversion H; subst. destruct (eval_gen _ _ _ _ _ _ _ _ _ _ _ _ E) as (F & -> & G).
+  inversion H; subst. destruct (eval_gen rule hb_defs hb_ws hb_RP hb_RP_holds _ _ _ _ _ _ _ _ _ E) as (F & -> & G).
   eapply schema. exact G.
 Qed.
 
